@@ -64,8 +64,8 @@ Print Assumptions C08_source_present_after_shb.
 
 Theorem C08_source_present_after_multihop : forall t pv sn now life len t', uniq t ->
   rx_mh t pv sn now life len = Some t' ->
-  exists d, check_dup (e_dpl (fst (get_or_new t (pv_addr pv)))) sn len = Some d /\
-    find t' (pv_addr pv) = (if keep now life (mh_entry t pv d) then Some (mh_entry t pv d) else None).
+  exists d, check_dup (e_dpl (fst (get_or_new t (pv_addr pv) now life))) sn len = Some d /\
+    find t' (pv_addr pv) = (if keep now life (mh_entry t pv d now life) then Some (mh_entry t pv d now life) else None).
 Proof. exact rx_mh_spec. Qed.
 Print Assumptions C08_source_present_after_multihop.
 
@@ -75,11 +75,22 @@ Theorem C08_shb_makes_neighbour : forall t pv now life e, uniq t ->
 Proof. exact rx_shb_neighbour. Qed.
 Print Assumptions C08_shb_makes_neighbour.
 
+(* `live t a now life` is the entry of a unless its lifetime has run out at `now` (whether or not a purge has removed
+   it yet): the flag survives multi-hop packets exactly while the entry has not expired *)
 Theorem C08_multihop_keeps_neighbour_flag : forall t pv sn now life len t' e', uniq t ->
   rx_mh t pv sn now life len = Some t' -> find t' (pv_addr pv) = Some e' ->
-  e_nb e' = match find t (pv_addr pv) with Some e => e_nb e | None => false end.
+  e_nb e' = match live t (pv_addr pv) now life with Some e => e_nb e | None => false end.
 Proof. exact rx_mh_neighbour. Qed.
 Print Assumptions C08_multihop_keeps_neighbour_flag.
+
+(* an entry whose lifetime has run out is gone even when no purge has run since: the next multi-hop packet of its
+   station does not find it - the station is not a neighbour and its duplicate packet list starts afresh *)
+Theorem C08_expired_entry_is_not_reused : forall t pv sn now life len t' e e', uniq t ->
+  find t (pv_addr pv) = Some e -> keep now life e = false ->
+  rx_mh t pv sn now life len = Some t' -> find t' (pv_addr pv) = Some e' ->
+  e_nb e' = false /\ e_dpl e' = [sn].
+Proof. exact rx_mh_expired_entry_not_reused. Qed.
+Print Assumptions C08_expired_entry_is_not_reused.
 
 Theorem C08_neighbour_until_expiry : forall life len ops t a e,
   uniq t -> (forall e0, find t a = Some e0 -> e_nb e0 = true) -> find t a <> None ->
